@@ -374,6 +374,12 @@ func init() {
 		for w := 0; w < 25; w++ {
 			emit(shapedScenario(g, w))
 		}
+		// a derived layer mounted, listed and unmounted (history 4), and the export-link history
+		// (the default case), under every other configuration of scnremap.go
+		for _, a := range cfgAlts {
+			emit(remapScenario(shapedScenario(g, 4), a))
+			emit(remapScenario(shapedScenario(g, 5), a))
+		}
 		for _, imp := range directedImports {
 			for v := 0; v < 9; v++ {
 				if tier != "thorough" && v%3 != g.Intn(3) && v/3 != 0 {
